@@ -458,6 +458,9 @@ func genC18(cfg Config, emit Emit) error {
 		// every recorded root block is also read and re-written by the Lean DAG-CBOR model
 		var rl recordedLine
 		if json.Unmarshal(sc.Bytes(), &rl) == nil {
+			if ar, ok := rl.Artifacts["archive"]; ok && ar != "" && rl.Program.Kind == "token" {
+				emit("wire", []string{"recorded", ar}, "recorded-wire/token", true)
+			}
 			for _, k := range []string{"root", "message-root"} {
 				if h, ok := rl.Artifacts[k]; ok && h != "" {
 					emit("cborblock", []string{h, "recorded-" + rl.Program.Kind}, "recorded-block/"+rl.Program.Kind, true)
